@@ -342,6 +342,7 @@ func run(rp *explore.Report, tier string) {
 		}
 		rp.Cases++
 		e := newEnv(lim)
+		defer e.fdb.Close()
 		var names []string
 		for _, i := range seq {
 			names = append(names, all[i].name)
